@@ -109,13 +109,14 @@ def _check_config(case: dict) -> dict:
     if reps[0]["digest"] != reps[1]["digest"]:
         out["sut_hash_dependent"] = True  # e.g. the SUT iterates over a set literal passed by a test
     speed_differs = False
+    listing_differs = False
     slow = None
     if not (same_seed_differs or cross_differs) and case.get("slow_factor") and not os.environ.get("VERIF_C16_NO_SLOW"):
         # fourth replica: the same interpreter settings on a machine that is slow_factor times slower (every
         # simulated cost scaled).  With iteration budgets only, the speed of the machine must not matter - unless a
         # wall-time budget legitimately bound (a test hit its execution timeout, a local-search phase used up its
         # own time budget): such configurations are inconclusive, not violations.
-        slow = _run_replica(case, a, speed=case["slow_factor"])
+        slow = _run_replica(case, a, speed=case["slow_factor"], reverse_listing=True)
         if "error" in slow:
             return {"status": "error", "error": slow["error"], "run_seed": case["run_seed"]}
         out["sim_ns"] += slow["sim_ns"]
@@ -129,17 +130,26 @@ def _check_config(case: dict) -> dict:
         s_to, s_ok = set(slow.get("timeout_codes", [])), set(slow.get("ok_codes", []))
         speed_induced_timeout = bool((s_to & f_ok) | (f_to & s_ok))
         if any(reps[0][k] != slow[k] for k in keys):
-            if speed_induced_timeout or ls_bound(reps[0]) or ls_bound(slow):
+            # which of the two environment differences is it?  the slow machine alone ...
+            only_slow = _run_replica(case, a, speed=case["slow_factor"])
+            if "error" in only_slow:
+                return {"status": "error", "error": only_slow["error"], "run_seed": case["run_seed"]}
+            if all(reps[0][k] == only_slow[k] for k in keys):
+                # ... reproduces the base result, so the order in which directories are listed made the difference
+                listing_differs = True
+            elif speed_induced_timeout or ls_bound(reps[0]) or ls_bound(slow):
                 out["inconclusive_speed"] = True
             else:
                 speed_differs = True
-    if not (same_seed_differs or cross_differs or speed_differs):
+    if not (same_seed_differs or cross_differs or speed_differs or listing_differs):
         return out
     # localise: rerun with full draw logs and full event history
     c2 = dict(case, return_hist=True)
     l0 = _run_replica(c2, a, log_draws=True)
     if speed_differs:
         l1 = _run_replica(c2, a, log_draws=True, speed=case["slow_factor"])
+    elif listing_differs:
+        l1 = _run_replica(c2, a, log_draws=True, reverse_listing=True)
     else:
         l1 = _run_replica(c2, a if same_seed_differs else b, log_draws=True)
     # Is the divergence explained by the module under test itself behaving differently under the other hash
@@ -149,7 +159,7 @@ def _check_config(case: dict) -> dict:
     ex1 = [e for e in l1.get("hist", []) if e[0] in ("exec", "res")]
     for x, y in zip(ex0, ex1):
         if x != y:
-            if x[0] == "res" and not same_seed_differs and not speed_differs:
+            if x[0] == "res" and not same_seed_differs and not speed_differs and not listing_differs:
                 out["inconclusive"] = f"execution #{x[1]}: identical test code, different result under the other hash seed"
                 out["sut_hash_dependent"] = True
                 return out
@@ -169,7 +179,8 @@ def _check_config(case: dict) -> dict:
         fb = first["replica_b"]
         sites = sorted({x[0].rsplit(":", 1)[0] for x in (fa, fb) if isinstance(x, list) and len(x) >= 3})
         site = "diverge@" + "+".join(sites) if sites else "draw-count"
-    kind = "machine-speed" if speed_differs else ("same-hashseed" if same_seed_differs else "hashseed")
+    kind = "machine-speed" if speed_differs else "directory-listing-order" if listing_differs else (
+        "same-hashseed" if same_seed_differs else "hashseed")
     out["status"] = "violation"
     out["violation"] = {
         "signature": f"{kind}:{site}",
@@ -177,6 +188,9 @@ def _check_config(case: dict) -> dict:
                     f"{case['slow_factor']}x slower (no execution timeout, no local-search phase out of its own budget) "
                     f"gives another result ({[k for k in keys if reps[0][k] != slow[k]]}); first divergent draw: {first}")
         if speed_differs else
+        (f"{case['module']}/{case['algorithm']} seed={case['seed']}: the same run with directories listed in reverse "
+         f"order gives another result ({[k for k in keys if reps[0][k] != slow[k]]}); first divergent draw: {first}")
+        if listing_differs else
                    f"{case['module']}/{case['algorithm']} seed={case['seed']}: replicas under PYTHONHASHSEED "
                    f"{a} and {a if same_seed_differs else b} disagree "
                    f"({[k for k in keys if reps[0][k] != reps[2 if same_seed_differs else 1][k]]}); "
